@@ -7,6 +7,10 @@ def stack_nontrivial(tok, res):
         return res.count(",") >= 1
     if tok[0] in ("wrl", "srv", "cli", "disp", "wrap", "sniff", "wtok"):
         return True
+    if tok[0] == "wlim":
+        return "/" in res or "sink" in res      # a write that was split under a finite limiter, or a failing sink
+    if tok[0] == "rlim":
+        return res.startswith("n=") and "," in res
     if tok[0] == "rd":
         return not res.startswith("n=0")
     if tok[0] == "bucket":
@@ -17,7 +21,7 @@ def stack_nontrivial(tok, res):
 
 
 def stack_class(r):
-    if r.startswith("c="):
+    if r.startswith("c=") and ";cat=" not in r:
         head = r.split(";")[0]
         return "chunks=" + str(0 if head == "c=" else len(head[2:].split(",")))
     if r.startswith("g="):
@@ -26,6 +30,14 @@ def stack_class(r):
         return "wrl " + ("rem0" if ";rem=0;" in r else "rem+")
     if r.startswith("pp="):
         return "pp=" + r[3:5] + ";" + ";".join(r.split(";")[1:])
+    if r.startswith("c="):
+        calls = r.split(";")[0][2:].split("|")
+        errs = sorted({c.split(":")[1] for c in calls if c.count(":") == 3})
+        split = any("/" in c.split(":")[2] for c in calls if c.count(":") == 3)
+        return "wlim calls=%d err=%s split=%d tokens=%d" % (len(calls), "+".join(errs), split, not r.split(";")[0].endswith("-"))
+    if r.startswith("n=") and ";req=" in r:
+        f = r.split(";")
+        return "rlim reads=%s %s tokens=%d" % (min(f[0].count(",") + 1, 9) if f[0] != "n=" else 0, f[2], f[1] != "req=-")
     if r.startswith("n="):
         return "rd " + r.split(";")[1]
     if r.startswith("w="):
@@ -34,12 +46,15 @@ def stack_class(r):
 
 
 def e2e_nontrivial(tok, res):
-    return tok[0] in ("xfer", "multi", "bw") and not res.startswith("err")
+    return tok[0] in ("xfer", "multi", "bw", "sbw", "slow") and not res.startswith("err")
 
 
 def e2e_class(r):
     if r.startswith("total="):
         return "bw samples=" + str(len(r.split(";s=")[1].split(",")))
+    if r.startswith("r="):
+        els = r[2:].split("|")
+        return "sbw transfers=%d complete=%d" % (len(els), sum(1 for e in els if e.split(":")[1:3] == ["1", "1"]))
     return ";".join(x for x in r.split(";") if not x.startswith(("sent=", "got=")))[:60]
 
 
@@ -48,7 +63,9 @@ _T = ["mirror_proxy", "mirror_order", "mirror_visitor", "limiter_position", "sta
       "instantiate_core", "core_lawful", "limiter_Eout_flatten", "limiter_Dchunks", "server_Eout", "server_Dout",
       "client_split", "client_Dout", "client_Eout_flatten", "tunnel_down_prefix", "tunnel_down_complete",
       "tunnel_up_prefix", "tunnel_up_complete", "toyEnc_lawful", "toyComp_lawful", "writer_chunks",
-      "writer_chunk_bounds", "writer_tokens", "writer_requests_admissible", "reader_le", "bucket_bound",
+      "writer_chunk_bounds", "writer_tokens", "writer_requests_admissible", "reader_le", "writer_wait_never_refused",
+      "writer_finite_complete", "writer_short_count", "writer_requests_cover", "writer_calls_concat", "reader_drain",
+      "wlim_model_holdsOn", "rlim_model_holdsOn", "bucket_bound",
       "bucket_window_bound", "closeTop_idem", "closeCount_of_check", "closeTop_bare", "client_close",
       "server_close_fixed", "server_close_partial", "server_close_witness", "server_close_full_fails",
       "server_close_switch", "server_close_current", "http_close_fixed", "http_close_current", "visitor_close", "visitor_server_close",
@@ -69,7 +86,12 @@ PROP = {
              "search_seeds": 1, "search_n": 60, "reruns": 1,
              "nontrivial": e2e_nontrivial, "result_class": e2e_class},
         ],
-        "rule": "stack engine: real limit.Writer over a recording sink (chunk traces, byte for byte) and limit.Reader; real "
+        "rule": "stack engine: real limit.Writer over a recording sink (chunk traces, byte for byte) and limit.Reader; the same two "
+                "over REAL FINITE rate.Limiters (burst 1 B..8 KiB; either a high rate that is really waited for, or 1 token/s "
+                "refilled after every sink write so that the tokens each WaitN took are read off the limiter): writes of 0..8 "
+                "bursts, alone and split over 1..4 calls, over a sink that fails after a generated number of bytes (returned n, "
+                "error class, sizes the sink saw, tokens per WaitN, accepted bytes = prefix), reads with buffers smaller and "
+                "larger than the burst over a source handing out segments, drained to EOF; real "
                 "x/time/rate ReserveN with explicit times vs the bucket model, the Lean window bound evaluated on the real grant "
                 "times; real server/proxy TCP proxy (proxy.NewProxy+Run) with the harness as frpc decoding with real golib "
                 "layers in the order the MODEL predicts (all enc x comp x server-limit x echo/one-way), StartWorkConn name/src "
@@ -78,11 +100,17 @@ PROP = {
                 "side; real client proxy.Manager.HandleWorkConn over 1..4 prefix-related names + an unknown name; real "
                 "CloseNotifyConn/StatsConn/WrapReadWriteCloserConn closed 1..3 times over a counting conn; real vhost HTTPS "
                 "muxer and tcpmux CONNECT muxer (passthrough on/off) with 0/1/40 early bytes. e2e engine: real frps+frpc in one "
-                "process, 4 transport configurations (tcpMux x TLS x pool), 50 proxies each (tcp 24, stcp+visitor 12, https 8, "
-                "tcpmux 4, 2 bandwidth), each with its own tagged echo backend; payloads 0..1 MiB (random / zeros / mixed runs), "
+                "process, 4 transport configurations (tcpMux x TLS x pool) over tcp + one over quic + one over websocket, 56 proxies each (tcp 24, stcp+visitor 12, https 8, "
+                "tcpmux 4, 2 bandwidth, 6 small-limit: 8KB plain / 12KB enc / 64KB enc+comp x limit enforced by frpc / frps), each with its own tagged echo backend; payloads 0..1 MiB (random / zeros / mixed runs), "
                 "write chunkings 1..64 KiB and random, echo and one-way (user closes => backend must see everything then EOF), "
                 "2..6 simultaneous connections to distinct proxies, 256 KB/s limit on either side with the receive trace checked "
-                "by the Lean bucket bound. non-trivial = a write that was split / a grant that waited / any half-tunnel, close, "
+                "by the Lean bucket bound; small limits (burst below the 16..32 KiB pieces Join copies, so every copy is split by "
+                "limit.Writer / truncated by limit.Reader) with 2..3.5 bursts of payload, six transfers at once, user->backend "
+                "with the user closing and backend->user with the BACKEND writing everything in one Write and closing: "
+                "complete, unchanged, EOF, receive trace within burst + rate x span; slow readers (a sleep after every read) that "
+                "stop reading for 0..3.5 s at a byte position or at the moment the writing side of the tunnel is done (backend "
+                "half-closed, frpc forwarded everything, closed and hung up), user or backend as the reader, 17 B..10 MiB: "
+                "complete stream, then EOF. non-trivial = a write that was split / a grant that waited / any half-tunnel, close, "
                 "dispatch, sniff or end-to-end transfer that ran; distinct = distinct (op line, result) pairs",
         "trusted": COMMON_TRUST + [
             "models Frp/Model/Layers.lean, Limit.lean, CloseGraph.lean, Tunnel.lean written by hand from "
@@ -95,10 +123,16 @@ PROP = {
             "Limit.Res.reserve on generated request histories (explicit-time API) and the bound is evaluated on its grants",
         ],
         "assumptions": [
-            "PARTIAL: transports (yamux, TLS, kernel TCP) and 'eventually delivered' under real scheduling are only sampled "
-            "by the e2e engine; kcp / quic / websocket transports and the xtcp->stcp fallback are not driven",
+            "PARTIAL: transports (yamux, TLS, kernel TCP, quic, websocket) and 'eventually delivered' under real scheduling are "
+            "only sampled by the e2e engine (quic and websocket by one pair each: random transfers plus slow / pausing readers); "
+            "the kcp transport and the xtcp->stcp fallback are not driven",
             "integer ticks, rate r tokens per tick (bandwidthLimit is a multiple of 1024 B/s, so tick = 1/1024 s is exact)",
-            "the bandwidth scenario is real time: 640 KiB through a 256 KB/s limiter (about 1.5 s), bound checked with 150 KB slack",
+            "the bandwidth scenario is real time: 640 KiB through a 256 KB/s limiter (about 1.5 s), bound checked with 150 KB slack; "
+            "the small-limit scenarios take (payload - burst) / limit <= 2.5 s each (six run simultaneously), bound checked with 400 ms "
+            "x rate + 2 KiB slack, plus one snappy block (64 KiB) when compression is on: the limiter paces wire bytes, the "
+            "decompressor releases whole blocks",
+            "limit.Writer's sink is modelled as a contract-abiding io.Writer (short count => error); rate.Limiter.WaitN with a "
+            "background context is modelled as: error iff n > burst on a finite limiter (x/time/rate v0.5.0 Limiter.wait)",
             "DEFECTS on this tree (model faithful, witnesses proved, reproduced on the real code, recorded as known): "
             "server-side limiter close closure (server_close_witness / join_stuck_witness), CloseNotifyConn.Close "
             "(closeNotify_witness), tcpmux early data (tcpmux_early_data_witness); repaired models behind "
@@ -119,7 +153,10 @@ META = {
                 "option combinations (proxy and visitor legs); a stack of lawful layers is lawful, and frps' stack composed with "
                 "frpc's different stack delivers a prefix of what was written under any chunking of any prefix of the wire, all of "
                 "it once everything arrived, in both directions; limit.Writer's chunks concatenate to the input, each 1..burst "
-                "bytes, tokens = bytes; any run of grants of any limiter history is at most burst + rate x span; closing the top "
+                "bytes, tokens = bytes; with WaitN's refusal of n > burst and a failing sink in the model: no WaitN of Write is ever "
+                "refused, Write returns (len, nil) whenever the sink has room and (bytes the sink took, error) otherwise with the "
+                "accepted bytes a prefix, any split over calls concatenates, and a drain through limit.Reader with any buffer size "
+                "returns the stream unchanged with every request = bytes returned <= burst; any run of grants of any limiter history is at most burst + rate x span; closing the top "
                 "of frpc's stack closes the work connection exactly once for every combination; for frps' stack this is proved "
                 "without a server-side limit and REFUTED with one (defect: the limiter's close closure captures the reassigned "
                 "variable; user close never reaches the backend) with the repaired closure proved for all combinations; "
@@ -128,5 +165,5 @@ META = {
                 "names; the proxy-protocol source is the user's address; SNI / CONNECT-passthrough sniffing replays every byte.",
         "note": "Trusted: Lean kernel; hand-written models; harness. Assumed: golib crypto/snappy lawful, x/time/rate, yamux/TLS/TCP. "
                 "Known findings reproduced on every run: C01-server-limiter-close, C01-closenotify-self-close, "
-                "C01-tcpmux-early-data. Not covered: kcp/quic/websocket, xtcp fallback, vhost port shared with the control port.",
+                "C01-tcpmux-early-data. Not covered: kcp, xtcp fallback, vhost port shared with the control port (quic / websocket: one e2e pair each).",
     }
